@@ -65,6 +65,18 @@ func main() {
 			os.Exit(driver.Replay(prop, *replay))
 		}
 		os.Exit(driver.Check(prop, t, *cases, *jobs))
+	case "debugcase":
+		// vrun debugcase <prop> <from> <to> : run cases in-process and print every violation of every property
+		prop := os.Args[2]
+		from, _ := strconv.Atoi(os.Args[3])
+		to, _ := strconv.Atoi(os.Args[4])
+		for i := from; i < to; i++ {
+			seed := driver.CaseSeed(1, prop, i)
+			r := driver.Specs[prop].Run(prop, seed, i, "quick", "/tmp", nil)
+			for _, v := range r.Violations {
+				fmt.Printf("case %d seed %#x step %d op %q: %s: %s\n", i, seed, v.Step, v.Op, v.Signature, v.Text)
+			}
+		}
 	default:
 		fmt.Println("unknown command", os.Args[1])
 		os.Exit(2)
